@@ -332,6 +332,63 @@ fn run_case<G: AffineRepr>(env: &Env<G>, c: &Case) -> CaseOut {
             o.sample = Some(detail());
         }
     }
+    // ---- caller-chosen Pedersen bases: proofs made under a non-default pair, batched under that pair
+    // and under the default pair (and with one shifted member); verdict = conjunction of individual verdicts
+    {
+        use ark_ec::CurveGroup;
+        use rand_core::SeedableRng;
+        let rs = rand_scalars::<G>(c.seed ^ 0x7c, 2);
+        let pc2 = ark_bulletproofs::PedersenGens::<G> { B: crate::refv::smul(&env.pc.B, rs[0]).into_affine(), B_blinding: crate::refv::smul(&env.pc.B_blinding, rs[1]).into_affine() };
+        let mut mem: Vec<Inst<G>> = vec![];
+        for (i, b) in pool.iter().enumerate().filter(|(i, _)| i % 2 == (c.seed % 2) as usize).take(4) {
+            let po = crate::interp::cur::prove_program::<G>(&b.prog, &[], &pc2, &env.bp, c.seed ^ 0x71 ^ i as u64);
+            if let Ok(p) = po.proof {
+                if let Some(m) = Mirror::of(&p) {
+                    mem.push(Inst { prog: b.prog.clone(), vs: po.vs, proof: p, mirror: m, desc: format!("{} under custom bases", b.desc), valid: true });
+                }
+            }
+        }
+        if mem.len() >= 2 {
+            let mut variants: Vec<(&str, Vec<&Inst<G>>, bool)> = vec![("custom-bases", mem.iter().collect(), true), ("custom-bases-proofs-under-default-bases", mem.iter().collect(), false)];
+            let bad = shifted(&mem[mem.len() - 1], 0, F::<G>::from(3u64), "b+3 under custom bases".into());
+            if let Some(bad) = &bad {
+                let mut v: Vec<&Inst<G>> = mem.iter().take(mem.len() - 1).collect();
+                v.push(bad);
+                variants.push(("custom-bases-one-invalid", v, true));
+            }
+            for (name, members, custom) in variants {
+                let pcx = if custom { &pc2 } else { &env.pc };
+                o.evals += 1;
+                let singles: Vec<&'static str> = members.iter().map(|m| res_name(&crate::interp::cur::verify_program::<G>(&m.prog, &m.vs, &m.proof, pcx, &env.bp).res)).collect();
+                let all_ok = singles.iter().all(|s| *s == "Ok");
+                let rb = {
+                    let mut rng = rand_chacha::ChaChaRng::seed_from_u64(c.seed ^ 0x7d);
+                    let mut trs: Vec<merlin::Transcript> = members.iter().map(|m| crate::interp::cur::new_transcript(&m.prog)).collect();
+                    let mut insts = vec![];
+                    let mut err = None;
+                    for (m, tr) in members.iter().zip(trs.iter_mut()) {
+                        match crate::interp::cur::build_verifier::<G>(&m.prog, &m.vs, tr).0 {
+                            Ok(v) => insts.push((v, &m.proof)),
+                            Err(e) => err = Some(e),
+                        }
+                    }
+                    match err {
+                        Some(e) => Err(e),
+                        None => ark_bulletproofs::r1cs::batch_verify(&mut rng, insts, pcx, &env.bp),
+                    }
+                };
+                o.count(&format!("{}: conjunction={} batch={}", name, if all_ok { "accept" } else { "reject" }, if rb.is_ok() { "accept" } else { "reject" }), 1);
+                o.sig(format!("{}|{}|size={}", env.curve, name, members.len()));
+                if rb.is_ok() != all_ok {
+                    o.violate(
+                        format!("batch-vs-conjunction:{}:{}", name, if rb.is_ok() { "batch-accepts" } else { "batch-rejects" }),
+                        format!("batch '{}' of {} instances: batch_verify says {} but the individual verdicts under the same Pedersen bases are {:?}", name, members.len(), res_name(&rb), singles),
+                        json!({"batch": name, "individual": singles, "programs": members.iter().map(|m| m.prog.clone()).collect::<Vec<_>>()}),
+                    );
+                }
+            }
+        }
+    }
     o
 }
 
